@@ -1,4 +1,4 @@
-import MahfModel.Model.Sa
+import MahfModel.Model.SaCool
 open MahfModel MahfModel.Sa
 
 namespace C17Drv
@@ -44,9 +44,23 @@ def ulpDown (x : Float) : Float := if x > 0.0 && x.isFinite then Float.ofBits (x
 def expUp (x : Float) : Float := ulpUp (Float.exp x)
 def expDown (x : Float) : Float := ulpDown (Float.exp x)
 
-def acceptOut (exp : Float → Float) (t u : Float) (s : Stk Float) : Sexp :=
+def acceptOutF (flip : Bool) (exp : Float → Float) (t u : Float) (s : Stk Float) : Sexp :=
   let (st, s', used) := acceptStep exp t u s
+  let used := if flip then 1 - used else used
   .list [statusS st, stackS s', .list [.atom "t", Sexp.ofFloat t], .list [.atom "used", Sexp.ofNat used]]
+
+def acceptOut (exp : Float → Float) (t u : Float) (s : Stk Float) : Sexp := acceptOutF false exp t u s
+
+/-- The decision cannot depend on the draw `u ∈ [0, 1)`: the candidate is not worse, or `p` is
+`0` (underflow), `≥ 1` (rounding) or NaN.  Whether the code asks the generator in such a case is
+not part of the property, so both draw counts are legal witnesses. -/
+def drawFree (cur cand t : Float) : Bool :=
+  let p := prob Float.exp cur cand t
+  cand ≤ cur || p ≤ 0.0 || p ≥ 1.0 || p.isNaN
+
+def drawFreeFrame (t : Float) : Stk Float → Bool
+  | (cand :: _) :: (cur :: _) :: _ => drawFree cur.obj cand.obj t
+  | _ => false
 
 def relClose (a b : Float) : Bool :=
   a == b || (a - b).abs ≤ 1e-9 * (max a.abs b.abs)
@@ -115,7 +129,8 @@ def freqCase (args : List Sexp) (implOut : Sexp) : Option Verdict := do
     let lo := countAcc expDown cur cand t n s0 0
     let hi := countAcc expUp cur cand t n s0 0
     let usedM := if cand ≤ cur then 0 else n
-    let agree := lo ≤ acc && acc ≤ hi && bad == 0 && used == usedM
+    let usedOk := used == usedM || (drawFree cur cand t && used ≤ n)
+    let agree := lo ≤ acc && acc ≤ hi && bad == 0 && usedOk
     pure { agree, holds, cls := if holds then "-" else "frequency",
            model := .list [.atom "acc", Sexp.ofNat (countAcc Float.exp cur cand t n s0 0), model] }
   else
@@ -192,6 +207,90 @@ def runCase (args : List Sexp) (implOut : Sexp) : Option Verdict := do
     pure { agree := holds, holds, cls, model }
   | _ => none
 
+
+/-! ### cooling components inside programs (`coolprog`) -/
+
+def optFloat? : Sexp → Option (Option Float)
+  | .atom "none" => some none
+  | x => x.float?.map some
+
+def optNat? : Sexp → Option (Option Nat)
+  | .atom "none" => some none
+  | x => x.nat?.map some
+
+def optFloatS : Option Float → Sexp
+  | none => .atom "none"
+  | some v => Sexp.ofFloat v
+
+def optNatS : Option Nat → Sexp
+  | none => .atom "none"
+  | some v => Sexp.ofNat v
+
+mutual
+  def prog? : Nat → Sexp → Option (CProg Float)
+    | 0, _ => none
+    | fuel + 1, x =>
+      match x with
+      | .list [.atom "cool", id, c, a] => do pure (.cool (← id.nat?) (← c.nat?) (← a.float?))
+      | .list [.atom "seti", v] => do pure (.setIter (← v.nat?))
+      | .list [.atom "skip"] => some .skip
+      | .list (.atom "seq" :: ps) => progs? fuel ps
+      | .list [.atom "loop", n, b] => do pure (.loop (← n.nat?) (← prog? fuel b))
+      | .list (.atom "scope" :: ps) => do pure (.scope (← progs? fuel ps))
+      | _ => none
+  def progs? : Nat → List Sexp → Option (CProg Float)
+    | 0, _ => none
+    | _ + 1, [] => some .skip
+    | fuel + 1, p :: ps => do pure (.seq (← prog? fuel p) (← progs? fuel ps))
+end
+
+def cstatusS : CStatus → Sexp
+  | .ok => .atom "ok" | .err => .atom "err" | .fuel => .atom "fuel"
+
+def coolProgOut (st : CStatus) (s : CState Float) : Sexp :=
+  .list [cstatusS st, .list [.atom "iters", optNatS (itersGet s.iters)],
+         .list (.atom "cells" :: s.cells.map optFloatS),
+         .list (.atom "trace" :: s.trace.reverse.map (fun e => .list [Sexp.ofNat e.id, Sexp.ofNat e.cell, Sexp.ofFloat e.value]))]
+
+def sameOrClose (a b : Float) : Bool := relClose a b || (a.isNaN && b.isNaN)
+
+/-- O for a program run, on the implementation's output alone: replay the logged executions —
+each must have left `old · alpha` (its own factor) in its own cell — and nobody else may have
+touched a cell. -/
+def coolProgHolds (cools : List (Nat × Nat × Float)) (cells0 : List (Option Float)) (implOut : Sexp) : Bool × String :=
+  match implOut with
+  | .list [.atom _, _, .list (.atom "cells" :: cellsS), .list (.atom "trace" :: tr)] =>
+    let rec go (cur : List (Option Float)) : List Sexp → Option (List (Option Float))
+      | [] => some cur
+      | .list [id, c, v] :: rest =>
+        match id.nat?, c.nat?, v.float? with
+        | some id, some c, some v =>
+          match cools.find? (fun e => e.1 == id), cur[c]? with
+          | some (_, c', a), some (some old) =>
+            if c' == c && sameOrClose v (old * a) then go (cur.set c (some v)) rest else none
+          | _, _ => none
+        | _, _, _ => none
+      | _ => none
+    match go cells0 tr with
+    | none => (false, "cooling")
+    | some cur =>
+      if Sexp.beq (.list (cur.map optFloatS)) (.list cellsS) then (true, "-") else (false, "cell-drift")
+  | _ => (true, "-")  -- constructor error / panic: nothing the property speaks about
+
+def coolProgCase (args : List Sexp) (implOut : Sexp) : Option Verdict := do
+  let it ← (← field "iters" args).head?.bind optNat?
+  let cells ← (← field "cells" args).mapM optFloat?
+  let p ← (← field "prog" args).head?.bind (prog? 64)
+  let cools := coolsOf p
+  if !(cools.all (fun e => alphaOk e.2.2)) then
+    let model := Sexp.list [.atom "e", .atom "ctor"]
+    pure { agree := Sexp.beq model implOut, holds := true, model }
+  else
+    let (st, s') := cexec 100000 p { iters := [it], cells, trace := [] }
+    let model := coolProgOut st s'
+    let (holds, cls) := coolProgHolds cools cells implOut
+    pure { agree := Sexp.beq model implOut, holds, cls, model }
+
 def handle (input implOut : Sexp) : Option Verdict := do
   match input with
   | .list (.atom "accept" :: args) =>
@@ -202,10 +301,12 @@ def handle (input implOut : Sexp) : Option Verdict := do
     let model := acceptOut Float.exp t u stack
     let agree := Sexp.beq model implOut || Sexp.beq (acceptOut expUp t u stack) implOut
       || Sexp.beq (acceptOut expDown t u stack) implOut
+      || (drawFreeFrame t stack && Sexp.beq (acceptOutF true Float.exp t u stack) implOut)
     let (holds, cls) := acceptHolds t u stack implOut
     pure { agree, holds, cls, model }
   | .list (.atom "freq" :: args) => freqCase args implOut
   | .list (.atom "cool" :: args) => coolCase args implOut
+  | .list (.atom "coolprog" :: args) => coolProgCase args implOut
   | .list (.atom "run" :: args) => runCase args implOut
   | _ => none
 
